@@ -4,7 +4,7 @@ from checks.storegen import World, PLAIN, NAMES, BAD_NAMES, BLOCK_KINDS, REL_OF,
 from checks import C04
 ID = 'C08'
 TECHNIQUE = 'Lean 4 proof over a hand-written store model + tables translated from the source on every run (guards of the create functions, exception handlers) + differential correspondence (trace validation) with the built library'
-THEOREMS = ['Nix.Guards.create_guards_are_in_place', 'Nix.Guards.type_checked_with_the_name', 'Nix.Guards.modelled_creates_are_tabulated', 'Nix.St.setLinks_refused_vector_no_trace', 'Nix.St.setLinks_uninitialised_no_trace', 'Nix.St.setLinks_sys', 'Nix.St.createBlock_rejected', 'Nix.St.createSectionIn_rejected', 'Nix.St.createSourceIn_rejected', 'Nix.St.createInBlock_rejected', 'Nix.St.createDataArray_rejected', 'Nix.St.createDataFrame_rejected', 'Nix.St.createTag_rejected', 'Nix.St.createGroup_rejected', 'Nix.St.createSource_rejected', 'Nix.St.createProperty_rejected', 'Nix.St.setSectionLink_rejected', 'Nix.St.setArrayLink_rejected', 'Nix.St.setExtents_rejected', 'Nix.St.setNonEmpty_rejected', 'Nix.St.addReference_rejected', 'Nix.St.addSource_rejected', 'Nix.St.addMember_rejected', 'Nix.St.openGroupCreate_fresh', 'Nix.St.emptyContainer_unobservable', 'Nix.St.rejected_no_trace_partial', 'Nix.St.createInBlock_extends', 'Nix.St.blkFind_id_after_extend', 'Nix.St.blkFind_id_transport', 'Nix.St.createMultiTag_rejected', 'Nix.St.createFeature_rejected', 'Nix.St.rejected_no_trace', 'Nix.St.wf_of_schema', 'Nix.St.rejected_no_trace_schema', 'Nix.St.rejected_no_trace_reachable']
+THEOREMS = ['Nix.Guards.create_guards_are_in_place', 'Nix.Guards.type_checked_with_the_name', 'Nix.Guards.modelled_creates_are_tabulated', 'Nix.St.setLinks_refused_vector_no_trace', 'Nix.St.setLinks_uninitialised_no_trace', 'Nix.St.bulkValidate_ok_all_initialised', 'Nix.St.setLinks_sys', 'Nix.St.createBlock_rejected', 'Nix.St.createSectionIn_rejected', 'Nix.St.createSourceIn_rejected', 'Nix.St.createInBlock_rejected', 'Nix.St.createDataArray_rejected', 'Nix.St.createDataFrame_rejected', 'Nix.St.createTag_rejected', 'Nix.St.createGroup_rejected', 'Nix.St.createSource_rejected', 'Nix.St.createProperty_rejected', 'Nix.St.setSectionLink_rejected', 'Nix.St.setArrayLink_rejected', 'Nix.St.setExtents_rejected', 'Nix.St.setNonEmpty_rejected', 'Nix.St.addReference_rejected', 'Nix.St.addSource_rejected', 'Nix.St.addMember_rejected', 'Nix.St.openGroupCreate_fresh', 'Nix.St.emptyContainer_unobservable', 'Nix.St.rejected_no_trace_partial', 'Nix.St.createInBlock_extends', 'Nix.St.blkFind_id_after_extend', 'Nix.St.blkFind_id_transport', 'Nix.St.createMultiTag_rejected', 'Nix.St.createFeature_rejected', 'Nix.St.rejected_no_trace', 'Nix.St.wf_of_schema', 'Nix.St.rejected_no_trace_schema', 'Nix.St.rejected_no_trace_reachable']
 LEAN_MODULES = ['NixModel.Props.C08Guards', 'NixModel.Gen.CreateGuards', 'NixModel.Props.C08Bulk', 'NixModel.Props.C08', 'NixModel.Props.C08Full', 'NixModel.Props.C08Schema']
 RULE = ('a reachable file state from the random tree generator, then a batch of calls that must be refused, each bracketed by two dumps: duplicate '
         'name (every container kind), empty / invalid name, empty type, references / positions / extents / features / sources / members / metadata / '
